@@ -36,6 +36,12 @@ func repoDir() string {
 }
 
 func runC16(seed uint64, n int, tier string, outDir string) []*Stats {
+	// every temp tree of the child processes lives under one root that is removed at the end
+	// (a killed child cannot clean up after itself)
+	if root, err := os.MkdirTemp("", "verif-c16-"); err == nil {
+		os.Setenv("C16_TMP", root)
+		defer os.RemoveAll(root)
+	}
 	r := NewRng(seed)
 	cf := NewCoqFile("From V Require Import Common.Base C16.Checked C16.Wtf8 C16.Vlq16 C16.CssNum C16.Packet C16.Pieces C16.CssIdent C16.Harness.")
 	st := NewStats("c16", seed)
